@@ -147,8 +147,9 @@ class PackFile:
 
 def unify_path(path: str) -> str:
     """Convert paths to a unique form."""
-    path = os.path.normpath(path).casefold().replace('\\', '/')
-    if '../' in path:
+    # Convert backslashes first, so they're treated as separators on every platform.
+    path = os.path.normpath(path.replace('\\', '/')).casefold().replace('\\', '/')
+    if path == '..' or '../' in path:
         raise ValueError('Path tried to escape root!')
     return path.lstrip('/')
 
